@@ -82,6 +82,12 @@ func Run(mod *ir.Module, fn *ir.Function) {
 	localPtrs := buildLocalPtrMap(fn)
 	unmarkDeadControlFlow(fn, fn.Body, deadLocals, live, localPtrs)
 
+	// Phase 2d: unmarking looks for other consumers among the live
+	// EXPRESSIONS only. A condition that a dead if shares with a statement
+	// that stays (a second if on the same let, a return of it) was unmarked
+	// with the dead if; mark again what the surviving statements use.
+	remarkSurvivors(mod, fn, fn.Body, deadLocals, live, localPtrs, mark)
+
 	// Phase 3: sweep dead statements and shrink emit ranges.
 	// Even when no dead locals exist, the sweep still shrinks emit ranges
 	// for dead expressions. Without this, shaders that compute into
@@ -445,6 +451,49 @@ func unmarkDeadControlFlow(
 
 		case ir.StmtBlock:
 			unmarkDeadControlFlow(fn, sk.Block, deadLocals, live, localPtrs)
+		}
+	}
+}
+
+// remarkSurvivors marks the operands of every statement that survives the
+// sweep: the condition / selector of control flow that keeps a non-empty
+// branch, and the operands of the root statements.
+func remarkSurvivors(
+	mod *ir.Module,
+	fn *ir.Function,
+	block ir.Block,
+	deadLocals map[uint32]bool,
+	live []bool,
+	localPtrs map[ir.ExpressionHandle]uint32,
+	mark func(ir.ExpressionHandle),
+) {
+	for i := range block {
+		switch sk := block[i].Kind.(type) {
+		case ir.StmtIf:
+			if !stmtSurvivesSweep(fn, sk, deadLocals, live, localPtrs) {
+				continue
+			}
+			mark(sk.Condition)
+			remarkSurvivors(mod, fn, sk.Accept, deadLocals, live, localPtrs, mark)
+			remarkSurvivors(mod, fn, sk.Reject, deadLocals, live, localPtrs, mark)
+		case ir.StmtSwitch:
+			if !stmtSurvivesSweep(fn, sk, deadLocals, live, localPtrs) {
+				continue
+			}
+			mark(sk.Selector)
+			for ci := range sk.Cases {
+				remarkSurvivors(mod, fn, sk.Cases[ci].Body, deadLocals, live, localPtrs, mark)
+			}
+		case ir.StmtLoop:
+			remarkSurvivors(mod, fn, sk.Body, deadLocals, live, localPtrs, mark)
+			remarkSurvivors(mod, fn, sk.Continuing, deadLocals, live, localPtrs, mark)
+			if sk.BreakIf != nil {
+				mark(*sk.BreakIf)
+			}
+		case ir.StmtBlock:
+			remarkSurvivors(mod, fn, sk.Block, deadLocals, live, localPtrs, mark)
+		default:
+			markStmtRoots(mod, fn, block[i].Kind, localPtrs, mark)
 		}
 	}
 }
